@@ -14,6 +14,10 @@ func TestVerifSim(t *testing.T) {
 		t.Skip("VERIF_FAMILY not set")
 	case "G":
 		vs.WorkerMain(t, "exec-sim", "G", runG)
+	case "M":
+		vs.WorkerMain(t, "exec-sim", "M", runM)
+	case "O":
+		vs.WorkerMain(t, "exec-sim", "O", runO)
 	default:
 		t.Fatalf("unknown family %q", os.Getenv("VERIF_FAMILY"))
 	}
